@@ -26,6 +26,11 @@ Shapes ==
     unarypair|-> [vars |-> V(2), ds |-> D2(2), scopes |-> << <<"v0">>, <<"v0","v1">> >>],
     isolated |-> [vars |-> V(3), ds |-> D2(3), scopes |-> << <<"v0","v1">> >>],
     isounary |-> [vars |-> V(3), ds |-> D2(3), scopes |-> << <<"v0","v1">>, <<"v2">> >>],
+    \* unary constraints on the other end, on the middle of a path, on the centre of a star, on every variable
+    upair1   |-> [vars |-> V(2), ds |-> D2(2), scopes |-> << <<"v1">>, <<"v0","v1">> >>],
+    upath    |-> [vars |-> V(3), ds |-> D2(3), scopes |-> << <<"v1">>, <<"v0","v1">>, <<"v1","v2">> >>],
+    ustar    |-> [vars |-> V(4), ds |-> D2(4), scopes |-> << <<"v0">>, <<"v0","v1">>, <<"v0","v2">>, <<"v0","v3">> >>],
+    uall     |-> [vars |-> V(3), ds |-> D2(3), scopes |-> << <<"v0">>, <<"v1">>, <<"v2">>, <<"v0","v1">>, <<"v1","v2">> >>],
     path3    |-> [vars |-> V(3), ds |-> D2(3), scopes |-> << <<"v0","v1">>, <<"v1","v2">> >>],
     path3d3  |-> [vars |-> V(3), ds |-> <<2, 3, 2>>, scopes |-> << <<"v0","v1">>, <<"v2","v1">> >>],
     fork3    |-> [vars |-> V(3), ds |-> D2(3), scopes |-> << <<"v0","v1">>, <<"v0","v2">> >>],
